@@ -23,13 +23,22 @@ CFG = dict(
               "families, tx==rx, extended message / 4-octet AS / extended next hop / family / add-path direction in "
               "force iff both advertised it; negotiate_gr / negotiate_llgr family sets equal at both ends and in force "
               "iff both advertised; the FSM's effective send-max only where negotiate put add-path send in force",
+              "re-configuration: UpdatePeer (one field or several: hold time, peer AS, local AS, passive, families, add-path "
+              "receive / send-max, GR, LLGR, prefix limits, export policy, admin state, RS/RR-client flags) on an idle or "
+              "connected neighbour and UpdatePeerGroup, each followed by a new session (first session after the update) "
+              "judged with the set-up clauses against the NEW configuration; admin state after UpdatePeer read from the "
+              "peer table",
               "concurrent: real gRPC configuration calls (Disable/Enable/Delete/Add/replace, delete/add/move dynamic "
               "prefix) race with accept_connection (multi-thread runtime; both queued behind a holder of the global "
               "lock, or free-running); at quiescence: an admin-down neighbour owns no registered connection that was "
               "never told to shut down, a session of a deleted / replaced neighbour was told to shut down and ends, an "
               "accepted session carries the parameters of one of the configurations that existed, refused => zero bytes",
               "no panic in accept_connection / PeerSession::run / negotiate / OPEN codec"],
-    assumptions=["concurrent part: the overlap is produced by holding the global tokio RwLock from the harness while the "
+    assumptions=["a session that stays up across an UpdatePeer (the handler decides: close channel still installed) keeps whatever "
+                 "it has -- counted (update:session-kept), not judged; static members / live instances of a group that "
+                 "was re-configured later are not judged (whether existing members follow is not said); an update the "
+                 "handler refuses (RS/RR-client change) leaves the model unchanged",
+                 "concurrent part: the overlap is produced by holding the global tokio RwLock from the harness while the "
                  "accept and the configuration call queue up (what any other handler does), no hook inside "
                  "accept_connection; overlaps are counted by sequence numbers taken at call start / return",
                  "judged at quiescence: after disconnect / disable / delete the harness waits for the session tasks to "
@@ -75,7 +84,19 @@ CFG = dict(
                          "conc:judged:session-of-admin-down-neighbour": 90,
                          "conc:judged:session-of-removed-neighbour": 110, "conc:judged:session-may-live": 190,
                          "conc:judged:setup": 190, "conc:closed-session-ended": 200,
-                         "conc:kind:Disable": 140, "conc:kind:Delete": 80, "conc:kind:Replace": 80}),
+                         "conc:kind:Disable": 140, "conc:kind:Delete": 80, "conc:kind:Replace": 80,
+                         "op:update": 1300, "op:update-group": 440, "update:while-connected": 300,
+                         "update:while-idle": 1000, "update:probe-session": 700, "update-group:probe-session": 200,
+                         "update:session-kept": 80, "update:session-torn-down": 180, "update:one-field": 900,
+                         "update:several-fields": 170, "update:admin-state-judged": 180,
+                         "update:field:hold-time": 210, "update:field:peer-as": 95, "update:field:local-as": 90,
+                         "update:field:passive": 120, "update:field:families": 120,
+                         "update:field:addpath-receive": 60, "update:field:addpath-send-max": 130,
+                         "update:field:graceful-restart": 60, "update:field:llgr": 60,
+                         "update:field:prefix-limits": 50, "update:field:export-policy": 170,
+                         "update:field:admin-state": 180, "update:refused:route-server-client": 70,
+                         "update:refused:route-reflector-client": 65, "update-group:field:families": 55,
+                         "update-group:field:hold-time": 110, "update-group:field:graceful-restart": 45}),
     quick=[e2("accept", "event::verif::c16::run", 4, 120, part="seq"),
            e2("conc", "event::verif::c16::run", 2, 120, part="concurrent"),
            e1("mirror", "c16", "debug", 1, 120),
